@@ -816,6 +816,16 @@ def execute(desc):
       # hand out read-only arrays from a fresh object and writable ones from a
       # deep copy of it): the model follows what the object did.  C08 only
       # says that what it reports afterwards is not stale.
+      if raised is None and cur is None:
+        # `None += d` cannot succeed: the object handed out a control series
+        # where a fresh object (none assigned since the last treatment series)
+        # reports None
+        viol = core.violation(
+            PROPERTY, 'D2', step, kind,
+            'augmented assignment to %s accepted although no such series is '
+            'held: the object reported a stale series' % which,
+            expected=None, got='accepted')
+        break
       if raised is None:
         new = np.array(cur)
         new += d
